@@ -159,23 +159,24 @@ type X struct {
 	lastAct     atomic.Int64
 
 	// engine
-	eng        gnet.Engine
-	haveEng    bool
-	cli        *gnet.Client
-	addrs      []string // protoAddr of every listener
-	lisNet     []string
-	lisAddr    []string
-	done       chan error
-	returned   bool
-	retErr     error
-	booted     bool
-	bootAct    gnet.Action
-	started    bool
-	rGoid      int64
-	sdGoid     int64 // goroutine that ran OnShutdown
-	pollers    []*pollerInfo
-	gPoller    map[int64]int // goroutine -> poller index
-	loopHandle map[int]gnet.EventLoop
+	eng            gnet.Engine
+	haveEng        bool
+	cli            *gnet.Client
+	addrs          []string // protoAddr of every listener
+	lisNet         []string
+	lisAddr        []string
+	done           chan error
+	returned       bool
+	retErr         error
+	booted         bool
+	bootAct        gnet.Action
+	started        bool
+	rGoid          int64
+	sdGoid         int64 // goroutine that ran OnShutdown
+	pollers        []*pollerInfo
+	gPoller        map[int64]int // goroutine -> poller index
+	closedPollerFd map[int]bool  // poller descriptors the framework has closed (numbers not handed out again since)
+	loopHandle     map[int]gnet.EventLoop
 
 	// pins
 	pinBoot, pinOnShutdown, pinClosePollers, pinT bool
@@ -222,7 +223,7 @@ type X struct {
 }
 
 func newX(cfg caseCfg) *X {
-	x := &X{cfg: cfg, gPoller: map[int64]int{}, loopHandle: map[int]gnet.EventLoop{}, pinL: map[int]bool{}, nBlocked: map[int]int{},
+	x := &X{cfg: cfg, gPoller: map[int64]int{}, closedPollerFd: map[int]bool{}, loopHandle: map[int]gnet.EventLoop{}, pinL: map[int]bool{}, nBlocked: map[int]int{},
 		byConn: map[gnet.Conn]*connRec{}, byTag: map[int]*connRec{}, failWr: map[int]bool{},
 		users: map[int]chan userCmd{}, pendingStop: map[int]context.CancelFunc{}, busy: map[int]bool{},
 		workerDone: map[int]bool{}, workerExpect: map[int]bool{}, workerLate: map[int]bool{}, auxConns: map[string]net.Conn{},
@@ -259,6 +260,10 @@ func (x *X) fail(site, sig, detail string) {
 	x.mu.Lock()
 	x.fails = append(x.fails, [3]string{site, sig, detail})
 	x.mu.Unlock()
+}
+
+func (x *X) failLocked(site, sig, detail string) {
+	x.fails = append(x.fails, [3]string{site, sig, detail})
 }
 
 func thrL(i int) (int, []string) { return rankL + i, []string{"L", tr.I(i)} }
@@ -303,6 +308,11 @@ func (x *X) Before(c *vunix.Call) {
 			_ = unix.Shutdown(c.Fd, unix.SHUT_RDWR)
 		}
 	case "close":
+		if x.closedPollerFd[c.Fd] {
+			// C07/C19: the descriptors of a poller are closed once; a number closed before belongs to somebody else
+			delete(x.closedPollerFd, c.Fd)
+			x.failLocked("control-table", "poller-descriptor-closed-again", fmt.Sprintf("close(%d): the number of a poller descriptor the framework had already closed", c.Fd))
+		}
 		if x.pinClosePollers && !x.atClosePollers && x.sdGoid != 0 && g == x.sdGoid {
 			x.atClosePollers = true
 			block = x.relClosePollers
@@ -332,6 +342,21 @@ func (x *X) After(c *vunix.Call) {
 		if pi, ok := x.gPoller[goid()]; ok {
 			x.pollers[pi].idle = false
 		}
+	case "close":
+		if c.Err == nil {
+			for _, p := range x.pollers {
+				if p.epfd == c.Fd || p.efd == c.Fd {
+					x.closedPollerFd[c.Fd] = true
+				}
+			}
+		}
+	case "accept4", "accept", "socket", "fcntl":
+		if c.Err == nil {
+			delete(x.closedPollerFd, c.Ret)
+		}
+	}
+	if (c.Name == "epoll_create1" || c.Name == "eventfd") && c.Err == nil {
+		delete(x.closedPollerFd, c.Ret)
 	}
 	x.mu.Unlock()
 }
@@ -834,6 +859,21 @@ func (x *X) ensureAux() {
 	}()
 }
 
+// ensureClient creates the gnet.Client of a client case (NewClient only: nothing is started)
+func (x *X) ensureClient() *gnet.Client {
+	x.mu.Lock()
+	defer x.mu.Unlock()
+	if x.cli == nil && x.cfg.client {
+		cli, err := gnet.NewClient(x, x.options()...)
+		if err != nil {
+			x.failLocked("harness", "newclient", err.Error())
+			return nil
+		}
+		x.cli = cli
+	}
+	return x.cli
+}
+
 // boot calls Run / Rotate / Client.Start on the R goroutine.
 func (x *X) boot(act gnet.Action) {
 	x.mu.Lock()
@@ -844,12 +884,10 @@ func (x *X) boot(act gnet.Action) {
 	x.bootAct = act
 	x.mu.Unlock()
 	if x.cfg.client {
-		cli, err := gnet.NewClient(x, x.options()...)
-		if err != nil {
-			x.fail("harness", "newclient", err.Error())
+		cli := x.ensureClient()
+		if cli == nil {
 			return
 		}
-		x.cli = cli
 		go func() {
 			err := cli.Start()
 			x.mu.Lock()
